@@ -148,6 +148,18 @@ func checkC05(p *Program, r *Report) {
 			wrapperOf[m.Closure] = m
 		}
 	}
+	// buffers aliasing the shared state array must not grow (cross-cell overlap through slice capacity)
+	{
+		sub := NewReport("C04", r.Tier)
+		checkNoAppendOnShared(p, sub, models)
+		r.Rule("R05.5", "cell goroutines cannot reach each other's rows through spare slice capacity: no append on slices aliasing the shared arrays (R04.6)")
+		for _, f := range sub.Findings {
+			r.Fail("R05.5", f.Key, f.Pos, f.Message)
+		}
+		if len(sub.Findings) == 0 {
+			r.OK("R05.5", fmt.Sprintf("%d kernel functions: no append on aliased buffers", sub.PerRule["R04.6"][1]))
+		}
+	}
 	sites := goSites(p)
 	r.Floor("R05.1", "go statements", len(sites), 43)
 	for _, s := range sites {
